@@ -75,6 +75,7 @@ class Router:
             d = self.st.decisions.get(name + "#d")
             if d is None:
                 self.open = True
+                self.open_hook = name + "#d"
                 return None
             if d == 0:
                 return ("hit", HOOKS.index(h), name + ".Ok.0")
@@ -173,7 +174,10 @@ def render_item(st, mdl, base, nested):
         if vn == "Lit":
             return lit_text(ex + ".Lit.0.lit")
         if vn == "Group":
-            return None  # invisible groups cannot be written as text
+            if nested:
+                return None  # inside a token list the marker cannot be planted
+            inner = expr_text(ex + ".Group.0.expr.0.pointer.pointer*")
+            return None if inner is None else "__group!(%s)" % inner
         return {"Array": "[1]", "Path": "a::b", "Binary": "1 + 2", "Call": "f(1)", "Paren": "(1)", "Tuple": "(1, 2)", "Unary": "!a",
                 "Reference": "&a", "Range": "1..2", "Macro": "m!(1)", "Index": "a[1]", "Field": "a.b", "Closure": "|| 1", "Block": "{ 1 }",
                 "MethodCall": "a.b()", "Cast": "a as u8", "Struct": "S { a: 1 }", "Repeat": "[0; 2]", "Try": "a?", "If": "if a { 1 } else { 2 }",
@@ -245,8 +249,13 @@ def complete_and_replay(ck, prog, native, l, mask, kind, ename):
                             work.append(d2)
                         break
                 else:
-                    hk = [k for k in dec if k.startswith("hook(")]
-                    # an overridden hook that was never called: assume it would succeed
+                    # an overridden hook that was never called on this path: complete with "it succeeds"
+                    oh = getattr(rt, "open_hook", None)
+                    if oh is not None and oh not in dec:
+                        d2 = dict(dec)
+                        d2[oh] = 0
+                        work.append(d2)
+                        continue
                     return False
             continue
         tried += 1
